@@ -300,7 +300,7 @@ func build(cfg *CheckCfg) (*buildOut, error) {
 
 	// 5. compile the test binary
 	bin := filepath.Join(bdir, "test.bin")
-	c := exec.Command(goBin, "test", "-c", "-vet=off", "-overlay", ovPath, "-modfile", modPath, "-o", bin, cfg.Pkg)
+	c := exec.Command(goBin, "test", "-c", "-vet=off", "-ldflags=-checklinkname=0", "-overlay", ovPath, "-modfile", modPath, "-o", bin, cfg.Pkg)
 	c.Dir = repoDir
 	c.Env = goEnv()
 	var outb bytes.Buffer
